@@ -63,7 +63,7 @@ def random_window(rng):
 # Analysis descriptors
 # -----------------------------------------------------------------------------
 
-def random_analysis(rng, nmax=20000, nmin=50, backends=("numba", "numpy"), cross_p=0.6,
+def random_analysis(rng, nmax=20000, nmin=50, backends=("numba", "numpy", "auto"), cross_p=0.6,
                     allow_band=True):
     N = int(round(gen.loguniform(rng, nmin, nmax)))
     d = {
